@@ -2,6 +2,7 @@
 import contextlib
 import copy
 import importlib
+import os
 import random
 import types
 from collections import Counter
@@ -41,7 +42,7 @@ TRUSTED = [
     "the PRNG used by segmentation.py (random or srandom) returns randint(a,b) in [a,b] and choice(seq) in seq; modelled as explicit draws",
     "CPython list/tuple/set/dict/deque semantics as transcribed in Generator/Segmentation.v; BFS distances of split_block are modelled level-synchronously (same dict as the queue BFS), "
     "the recursive flood fill of _is_connected as the same level iteration; set iteration order of the merge pairs is not modelled (compared as sorted lists)",
-    "purity ('never modifies the value it was applied to') is about Python aliasing and is TESTED by the harness, not proved",
+    "purity ('never modifies the value it was applied to') is about Python aliasing: it is argued from the source text of copy_with_update / _copy_with_update (previous only read, kept blocks deep-copied; the text is locked fail-closed by translate() on every run) and TESTED by the harness; it is not a Coq theorem (the model is immutable)",
     "search also reports as violations: candidates() raising on a value that satisfies the invariant, and initial() raising anything but the IndexError of "
     "random.choice([]) (infeasible bounds); initial() runs that exceed a PRNG call budget (bounds that can never be met) are skipped",
 ]
@@ -496,6 +497,50 @@ def board_sizes(ctx, lo=1):
 
 
 # ---------------------------------------------------------------- correspondence
+
+# the text of the two functions the purity clause rests on ("applying an update never modifies the value it was applied
+# to"): previous is only READ (indexed, len), every kept block is deep-copied, the result is a fresh list.  With this
+# text the clause holds for CPython lists whatever the blocks are: no statement assigns to, or calls a method of,
+# `previous` or one of its elements, and `deepcopy` shares nothing mutable with its argument (the appended blocks come
+# from the update, not from the value).  A different text breaks this tie (fail-closed); the purity tests of the search
+# phase then look for a concrete input.
+PURITY_TEXT = {
+    "copy_with_update": """def copy_with_update(self, previous, update):
+    return self._copy_with_update(previous, update, use_deepcopy=True)""",
+    "_copy_with_update": """def _copy_with_update(self, previous, update, use_deepcopy):
+    exclude, append = update
+    if use_deepcopy:
+        return [deepcopy(previous[i]) for i in range(len(previous)) if i not in exclude] + append
+    else:
+        return [previous[i] for i in range(len(previous)) if i not in exclude] + append""",
+}
+
+
+def translate(ctx):
+    """tie T for the purity clause: the source of SegmentationBuilder2D.copy_with_update / _copy_with_update must be,
+    up to layout and comments, the text PURITY_TEXT was written from (compared as ast dumps), and `deepcopy` must be
+    copy.deepcopy"""
+    import ast
+    src = open(os.path.join(vlib.REPO, "cspuz", "generator", "segmentation.py")).read()
+    tree = ast.parse(src)
+    cls = [n for n in tree.body if isinstance(n, ast.ClassDef) and n.name == "SegmentationBuilder2D"]
+    if len(cls) != 1:
+        raise RuntimeError("class SegmentationBuilder2D not found exactly once")
+    for name, text in PURITY_TEXT.items():
+        fs = [n for n in cls[0].body if isinstance(n, ast.FunctionDef) and n.name == name]
+        if len(fs) != 1:
+            raise RuntimeError("method %s not found exactly once" % name)
+        want = ast.dump(ast.parse(text).body[0], annotate_fields=False)
+        if ast.dump(fs[0], annotate_fields=False) != want:
+            raise RuntimeError("SegmentationBuilder2D.%s is not the text the purity argument was made for" % name)
+    imps = [n for n in tree.body if isinstance(n, ast.ImportFrom) and n.module == "copy"
+            and any(a.name == "deepcopy" and a.asname is None for a in n.names)]
+    rebinds = [n for n in ast.walk(tree) if isinstance(n, (ast.FunctionDef, ast.ClassDef)) and n.name == "deepcopy"] + \
+              [n for n in ast.walk(tree) if isinstance(n, ast.Name) and n.id == "deepcopy" and isinstance(n.ctx, ast.Store)]
+    if len(imps) != 1 or rebinds:
+        raise RuntimeError("`deepcopy` in segmentation.py is not (only) copy.deepcopy")
+    ctx.count("purity-source-lock")
+
 
 def correspond(ctx):
     rng = ctx.rng
